@@ -269,13 +269,23 @@ func genLSHScenario(rng *rand.Rand, nops int, idx int) *lshScenario {
 		}
 		return v
 	}
+	// ids: mostly small, some at and above 2^63 (the index rebuild, the REST layer and the export parse them back)
+	idOf := func(k int) uint64 {
+		switch k % 11 {
+		case 5:
+			return 1<<63 + uint64(k)
+		case 7:
+			return math.MaxUint64 - uint64(k)
+		}
+		return uint64(k)
+	}
 	for i := 0; i < nops; i++ {
-		id := uint64(rng.Intn(pool))
+		id := idOf(rng.Intn(pool))
 		k := rng.Intn(100)
 		switch {
 		case big && i < pool: // fill first
-			sc.Ops = append(sc.Ops, lshOp{K: "add", ID: uint64(i), Vec: vec()})
-			live[uint64(i)] = true
+			sc.Ops = append(sc.Ops, lshOp{K: "add", ID: idOf(i), Vec: vec()})
+			live[idOf(i)] = true
 		case k < 45:
 			sc.Ops = append(sc.Ops, lshOp{K: "add", ID: id, Vec: vec()})
 			live[id] = true
